@@ -266,6 +266,8 @@ class Trimesh(Geometry3D):
             self.update_faces(mask)
             self.fix_normals()
 
+        # dump values computed before the last edit of the data
+        self._cache.verify()
         # avoid clearing the cache during operations
         with self._cache:
             # since none of our process operations moved vertices or faces
@@ -2456,6 +2458,10 @@ class Trimesh(Geometry3D):
         elif util.allclose(matrix, _IDENTITY4, 1e-8):
             return self
 
+        # values are kept across the transform so make sure they belong
+        # to the current data and not to data that was edited since
+        self._cache.verify()
+
         # new vertex positions
         new_vertices = transformations.transform_points(self.vertices, matrix=matrix)
 
@@ -2759,6 +2765,8 @@ class Trimesh(Geometry3D):
         Alters `self.faces` by reversing columns, and negating
         `self.face_normals` and `self.vertex_normals`.
         """
+        # dump values computed before the last edit of the data
+        self._cache.verify()
         with self._cache:
             face_normals = self._cache["face_normals"]
             vertex_normals = self._cache["vertex_normals"]
@@ -3156,6 +3164,8 @@ class Trimesh(Geometry3D):
         copied._cache.verify()
 
         if include_cache:
+            # dump values computed before the last edit of the data
+            self._cache.verify()
             # shallow copy cached items into the new cache
             # since the data didn't change here when the
             # data in the new mesh is changed these items
